@@ -2,7 +2,7 @@
 # tools/seed.sh <ID> <k> [extra props...]: verify a sub-agent's seeded change
 # in a scratch worktree and run the checks against it.
 set -u
-export GOFLAGS=-mod=mod GOPROXY=off GOSUMDB=off GOTOOLCHAIN=local
+export GOFLAGS=-mod=mod GOPROXY=off GOSUMDB=off GOTOOLCHAIN=local VC_RETRY=${VC_RETRY:-30}
 ID=$1; K=$2; shift 2
 RAW=/verif/seeded_raw/$ID
 S=/tmp/seedwt-$ID-$K
